@@ -18,7 +18,7 @@ try:
     d = json.load(open(sys.argv[1]))
     k = d.get("kind", "?")
     if k == "model-implementation-disagreement":
-        k = "correspondence" + ("+oracle(" + d["oracle_failures"][0]["kind"] + ")" if d.get("oracle_failures") else "+spec-theorems")
+        k = "correspondence" + ("+oracle(" + d["oracle_failures"][0]["kind"] + ")" if d.get("oracle_failures") else ("+spec-theorems" if "functional specification" in d.get("verdict", "") else "-only"))
     elif k == "oracle-failure":
         k = "oracle(" + d.get("oracle_kind", "") + ")"
     print(k)
